@@ -38,7 +38,7 @@ _real_datetime_str = wpull.util.datetime_str
 P = 'C06'
 BUDGETS = {'C06': (45, 900, 10)}
 LEVELS = {'C06': 'fault_enumeration'}
-PROBES = {'C06': ['first_record_of_file', 'compressed', 'uncompressed', 'multi_write_append', 'error_at_journal', 'error_at_archive_open',
+PROBES = {'C06': ['numbered_files', 'first_record_of_file', 'compressed', 'uncompressed', 'multi_write_append', 'error_at_journal', 'error_at_archive_open',
                   'error_at_archive_write', 'error_at_archive_close', 'error_at_unlink', 'torn_error', 'short_write',
                   'kill_points', 'kill_torn_points', 'kill_with_journal', 'restart_refused', 'real_kill_crosscheck']}
 INFO = {'C06': {
@@ -101,15 +101,20 @@ def run(tape, prop, tier):
     wpull.util.datetime_str = lambda: '2018-01-01T00:00:00Z'
     time.time = lambda: 1514764800.0          # gzip member headers carry time.time()
     try:
+        # with --warc-max-size the files are numbered (a-00000.warc.gz ...); the limit itself is never reached here
+        max_size = 10 ** 9 if tape.chance(1, 3, 'max_size') else None
+        workload['max_size'] = bool(max_size)
+        if max_size:
+            r.probes['numbered_files'] += 1
         params = WARCRecorderParams(compress=compress, temp_dir=tmpdir, log=False, digests=digests, cdx=False,
-                                    software_string='verif-sim/1')
+                                    software_string='verif-sim/1', max_size=max_size)
         prefix = os.path.join(sandbox, 'a')
         recorder = WARCRecorder(prefix, params=params)       # writes the warcinfo record
         for i in range(nprev - 1):
             rec = make_record(rng, rng.choice((0, 10, 500, 9000)), i)
             recorder.set_length_and_maybe_checksums(rec)
             recorder.write_record(rec)
-        arch_name = 'a.warc.gz' if compress else 'a.warc'
+        arch_name = ('a-00000' if max_size else 'a') + ('.warc.gz' if compress else '.warc')
         arch = os.path.join(sandbox, arch_name)
         if nprev == 0:
             # the state in which the recorder writes the first record of a file (fresh archive, next --warc-max-size
@@ -230,7 +235,7 @@ def run(tape, prop, tier):
                             fh.write(b2)
                     try:
                         WARCRecorder(os.path.join(d2, 'a'), params=WARCRecorderParams(
-                            compress=compress, temp_dir=tmpdir, log=False, digests=digests, cdx=False, appending=True))
+                            compress=compress, temp_dir=tmpdir, log=False, digests=digests, cdx=False, appending=True, max_size=max_size))
                     except OSError:
                         r.probes['restart_refused'] += 1
                     else:
